@@ -376,6 +376,9 @@ pub fn judge(which: Which, b: &Built, d: u8, run: &SearchRun, word: &str, wjson:
                     acc.count("empty pv lines");
                 } else {
                     acc.count("non-empty pv lines");
+                    if line.iter().rev().skip(1).any(|m| m.len() == 5 && !m.ends_with('q')) {
+                        acc.count("pv lines that continue after an under-promotion");
+                    }
                     acc.max("longest pv line", line.len() as u64);
                 }
                 if let Err((i, t)) = line_playable(&b.pos, &line) {
@@ -523,6 +526,9 @@ pub fn roots_once(which: Which, tier: &str, seed: i64) -> (Acc, Vec<SpaceReport>
         Space::slice(Universe::UC { extras: 1 }, if q { 40 } else { 4 }, off),
         Space::slice(Universe::UE { extras: 0, capturer_files: None, slider_only: false }, if q { 60 } else { 6 }, off),
         Space::slice(Universe::UP, if q { 8 } else { 1 }, off),
+        // a pawn on the 7th against a rook or queen: roots where an under-promotion (a knight fork, a stalemate-avoiding
+        // rook) is the best move, so that lines continue with a move of the new piece
+        Space::slice(Universe::UPQ, if q { 8 } else { 1 }, off),
     ];
     run_spaces(&spaces, &|ctx, acc| {
         let Ok(g) = load(ctx.pos) else { return };
